@@ -191,6 +191,19 @@ class BaseState(ABC):
             True by default
         """
 
+        from photon_weave.state.composite_envelope import CompositeEnvelope
+        from photon_weave.state.envelope import Envelope
+
+        # If the state is stored in a product state, apply the channel there
+        if isinstance(self.index, int):
+            assert isinstance(self.envelope, Envelope)
+            self.envelope.apply_kraus(operators, self)
+            return
+        if isinstance(self.index, (list, tuple)):
+            assert isinstance(self.composite_envelope, CompositeEnvelope)
+            self.composite_envelope.apply_kraus(operators, self)
+            return
+
         assert isinstance(self.expansion_level, ExpansionLevel)
         while self.expansion_level < ExpansionLevel.Matrix:
             self.expand()
